@@ -51,7 +51,7 @@ THEOREMS_C14_BLOCKS = [
     (M, 'EAO.C14K.blocks_aligned_split_equals_unsplit_partial',
      'split set-up with storages in time blocks (block starts recomputed on every interval grid as the code does, F-14f last-step blocks included): whenever the decidable witness of '
      'EAO.C14 holds for the unsplit problem and the interval problems of setupSplitK along the explicit matching, feasible sets and values correspond both ways: split = unsplit; '
-     'the correspondence evaluates blocksAligned => witness on every generated case (the implication itself is the TARGET, see the file header)'),
+     'the correspondence evaluates blocksAligned => witness on every generated case (the implication itself is blocks_aligned_split_equals_unsplit below)'),
     (M, 'EAO.C14K.blocked_storage_interval_is_restriction',
      'one storage in LP form apart from time blocks (no storage costs, start level = end level): if every unsplit block lies inside the piece [sa, sa+m) of the storage grid that belongs to '
      'the interval or is disjoint from it, and the blocks found on the interval grid are the unsplit blocks of that piece, the storage the split set-up builds in the interval IS the '
@@ -59,8 +59,12 @@ THEOREMS_C14_BLOCKS = [
     (M, 'EAO.C14K.blocks_pairs_aligned_split_equals_unsplit',
      'portfolios of the five builders and storages in time blocks: under splitHypsS of the portfolio without blocks, every storage lpK, the reference grid inside [gs, ge) and the decidable '
      'pair-level alignment pairsAligned (blocks recomputed on every interval grid = the unsplit blocks of the interval piece) the split set-up succeeds, the witness of EAO.C14 is TRUE against '
-     'the UNSPLIT problem along the explicit matching, and feasible sets, values and upper bounds of split and unsplit agree - no certificate; what remains of the TARGET is the bridge '
-     'blocksAligned (boundaries as sets) => pairsAligned'),
+     'the UNSPLIT problem along the explicit matching, and feasible sets, values and upper bounds of split and unsplit agree - no certificate'),
+    (M, 'EAO.C14K.blocks_aligned_split_equals_unsplit',
+     'the former TARGET, proved: portfolios of the five builders and storages in time blocks; splitHypsS of the portfolio without blocks, every storage lpK (no boolean options, cost_store = 0, '
+     'start level = end level in [0, size]), the reference grid inside [gs, ge) (hypothesis added: without it a machine-checked counterexample) and blocksAligned (the block boundaries of the '
+     'unsplit problem are, as a set, the cuts and the block boundaries recomputed on the interval grids - the condition the correspondence evaluates on every case): the split set-up succeeds, '
+     'the witness of EAO.C14 holds against the unsplit problem along the explicit matching, feasible sets, values and upper bounds of split and unsplit agree'),
 ]
 
 GRIDS = [('h', 'h', pd.Timedelta(hours=1)), ('2h', 'h', pd.Timedelta(hours=2))]
